@@ -106,7 +106,7 @@ def check_case(case):
         viol.append({"component": "history", "cell": cell, "symptom": symptom, "expected": str(expected)[:160], "observed": str(observed)[:160],
                      "input": case})
 
-    td = tempfile.mkdtemp(prefix="c09_")
+    td = common.mkdtemp(prefix="c09_")
     path = os.path.join(td, "img." + kind)
     saved = []        # model: files in the image on the host
     pending = []
